@@ -15,7 +15,7 @@ import (
 )
 
 func init() {
-	for _, id := range []string{"C01", "C02", "C03", "C06", "C07", "C13", "C14"} {
+	for _, id := range []string{"C01", "C02", "C03", "C06", "C07", "C13", "C14", "C17"} {
 		checks[id] = runE1
 	}
 }
@@ -27,6 +27,7 @@ var e1Rules = map[string]string{
 	"C06": "programs: profile dedup (once and when_changed tasks referenced 2-5 times from deps, cmds, loops, through an include under two namespaces; variable values reaching only env or sub-call vars); oracle: identity-carrying probes: a duplicate B of one identity, a missing execution in a failure-free run, a referrer proceeding before the single execution's last event or after its failure is a violation. Case/non-trivial/distinct as for C01.",
 	"C07": "programs: profile conc (failure free; depth, fan-out <= 5, shared deps, loops), N in {1,2,3,5,unlimited}; oracle at every quiescent state: pending command writes <= N (SLOT), nothing pending and Run not returned = deadlock (DEAD), pending = min(N, enabled) (WORK), at the end every expected event happened (END.missing). Cycles are decided by the CLI part (coverage.cli). Case/non-trivial/distinct as for C01.",
 	"C13": "programs: profile guard (platforms, requires, enum, preconditions, prompt without terminal, with/without --yes, guards on neighbours, shared tasks); oracle: a pending event of a guarded-out task is a violation, dependents/callers of a failed guard must not run, Run must return an error (platform: success and silence). Exit statuses are decided by the CLI part (coverage.cli). Case/non-trivial/distinct as for C01.",
+	"C17": "group: generated programs of 2-4 parallel tasks x 1-2 commands whose output is self-describing chunks (complete lines, partial lines, no trailing newline, empty output, empty lines, > 64 KiB lines, stdout and stderr, failing and succeeding commands, begin/end set or not, error_only on/off); every Write reaching the Executor's Stdout is gated in a synctest bubble and all release orders of the writes of simultaneously closing commands are enumerated (dfs, bounded per program) plus random orders; the released write sequence must parse into exactly the expected blocks, each contiguous. prefixed: 2-7 tasks x 1-3 commands free-running on 16/8/4/2 procs against a recording writer that yields randomly around every Write; every line exactly once, whole, with its task's prefix, its four writes contiguous. A case is one (program, write order); non-trivial = at least two commands' writes were pending at once (group) / lines of different tasks interleaved (prefixed); distinct by (program hash, write sequence hash).",
 	"C14": "programs: profile defer (0-4 defer entries per task, commands and task calls, failing defers, failing commands at every position, nested tasks with own defers); oracle: defer events only after the task's last executed command, in reverse registration order, exactly once, before the caller's next event; rendered EXIT_CODE equals the failing command's code; at the end every certainly registered defer ran. Case/non-trivial/distinct as for C01.",
 }
 
@@ -45,6 +46,10 @@ func buildSched(scratch string) (string, error) {
 
 // runShards runs the sched test binary in nshards processes and merges their partials.
 func runShards(bin, scratch, prop string, extraEnv []string) (*h.Partial, error) {
+	testName := "^TestShard$"
+	if prop == "C17" {
+		testName = "^TestShardC17$"
+	}
 	nshards := runtime.NumCPU()
 	if nshards > 16 {
 		nshards = 16
@@ -63,7 +68,7 @@ func runShards(bin, scratch, prop string, extraEnv []string) (*h.Partial, error)
 			os.MkdirAll(work, 0o755)
 			from := 0
 			for attempt := 0; attempt < 400; attempt++ {
-				cmd := exec.Command(bin, "-test.run", "^TestShard$", "-test.timeout", "0")
+				cmd := exec.Command(bin, "-test.run", testName, "-test.timeout", "0")
 				cmd.Dir = work
 				cmd.Env = append(h.GoEnv(), extraEnv...)
 				cmd.Env = append(cmd.Env,
@@ -166,8 +171,12 @@ func runE1(id string, start time.Time) int {
 		cliPart := f(scratch, part)
 		extra["cli"] = cliPart
 	}
+	eventsKey := "events_observed"
+	if id == "C17" {
+		eventsKey = "writes_observed"
+	}
 	rep := h.Report{ID: id, Level: "exploration", Rule: e1Rules[id], Start: start, Extra: extra,
-		MinEvents: 200, EventsKey: "events_observed",
+		MinEvents: 200, EventsKey: eventsKey,
 		Assumptions: []string{
 			"the reference semantics in harness/gen/model.go states the documented behaviour correctly",
 			"interleavings finer than one gated Write / one verifhook pause point are sampled by the Go scheduler, not enumerated",
